@@ -27,7 +27,17 @@ type Cfg struct {
 	// OneFile: every root quota lives on the same host and in the same file
 	// (needed when one flow uses two unrelated quotas)
 	OneFile bool `json:"one_file,omitempty"`
+	// Foreign: number of quotas of ANOTHER strategy (fixed window: a rate limit
+	// that is never reached) that live next to the concurrency quotas; their ids
+	// are q<len(Rows)>, q<len(Rows)+1>, ... They touch no concurrency state; they
+	// matter because ResourceManagement remembers the FIRST quota a transaction
+	// looked up. ForeignFirst: declared before the concurrency quotas.
+	Foreign      int  `json:"rate_quotas,omitempty"`
+	ForeignFirst bool `json:"rate_quotas_declared_first,omitempty"`
 }
+
+// foreign tells whether quota index q is a rate (fixed-window) quota.
+func (k *Cfg) foreign(q int) bool { return q >= len(k.Rows) }
 
 func qid(i int) string { return fmt.Sprintf("q%d", i) }
 
@@ -41,6 +51,9 @@ func (k *Cfg) root(i int) int {
 // chain returns q and its ancestors, q first.
 func (k *Cfg) chain(q int) []int {
 	out := []int{}
+	if q >= len(k.Rows) {
+		return out // a rate quota: no concurrency slot anywhere
+	}
 	for q >= 0 {
 		out = append(out, q)
 		q = k.Rows[q].Parent
@@ -61,20 +74,42 @@ func (k *Cfg) host(i int) string {
 	if k.OneFile {
 		return "h0.com"
 	}
+	if i >= len(k.Rows) {
+		return "hr.com"
+	}
 	return fmt.Sprintf("h%d.com", k.root(i))
 }
 
 // yamlFiles renders one quota file per root quota (a host must live in one file).
 func (k *Cfg) yamlFiles() map[string]string {
 	files := map[string]string{}
+	rate := func(sb *strings.Builder) {
+		for j := 0; j < k.Foreign; j++ {
+			i := len(k.Rows) + j
+			fmt.Fprintf(sb, "  - id: %s\n    filter:\n      url: \"%s/*\"\n", qid(i), k.host(i))
+			sb.WriteString("    strategy:\n      fixed_window:\n        max: 1000000\n        interval: 1\n        interval_unit: hour\n")
+		}
+	}
+	if !k.OneFile && k.Foreign > 0 {
+		var sb strings.Builder
+		sb.WriteString("quotas:\n")
+		rate(&sb)
+		files["rate.yaml"] = sb.String()
+	}
 	if k.OneFile {
 		var sb strings.Builder
 		sb.WriteString("quotas:\n")
+		if k.ForeignFirst {
+			rate(&sb)
+		}
 		for i, r := range k.Rows {
 			if r.Parent < 0 {
 				fmt.Fprintf(&sb, "  - id: %s\n    filter:\n      url: \"%s/*\"\n", qid(i), k.host(i))
 				sb.WriteString(strategyYAML(r, "    "))
 			}
+		}
+		if !k.ForeignFirst {
+			rate(&sb)
 		}
 		first := true
 		for j, ch := range k.Rows {
@@ -132,11 +167,16 @@ func (k *Cfg) coq() string {
 }
 
 // Op is one operation on the quota objects / resource management, executed to
-// completion for transaction R.
+// completion for transaction R on a stream whose transaction id is t<R> and
+// whose sequence id is t<Seq> (Seq == R: the proxy's default; Seq != R: the
+// client sent x-lunar-sequence-id — a retry carries the id of the first
+// attempt, parallel calls may be stamped alike; the stream Stream.OnError
+// builds has Seq == R whatever the request carried).
 type Op struct {
 	R    int    `json:"txn"`
 	Name string `json:"op"` // getq inc allowed dec drop finish
 	Q    int    `json:"quota"`
+	Seq  int    `json:"seq"`
 }
 
 func (o Op) coq() string {
@@ -161,8 +201,9 @@ func (o Op) coq() string {
 // with their verdicts, clock advances and GC passes, each with the (relative)
 // instant at which it completed.
 type LogEntry struct {
-	Kind    string `json:"kind"` // op tick gc
+	Kind    string `json:"kind"` // op tick gc end (end: the gateway itself ended transaction Op.R — How)
 	Op      Op     `json:"op,omitempty"`
+	How     string `json:"how,omitempty"`
 	Verdict int    `json:"verdict"` // allowed: 1/0; other ops: -1
 	Q       int    `json:"gc_quota,omitempty"`
 	T       int64  `json:"t_ns"`
